@@ -412,11 +412,31 @@ def r6_group_and_merge(ctx):
     ctx.check(good and oc is not None and astx.u(oc) == f"{f.params[0]}.candidates", f, f.node, "remove_empty_ballots keeps the original candidates iff keep_candidates", str(defs), f"remove_empty_ballots builds {defs}")
 
 
+def _check_defaults(ctx, table):
+    """table: [(function short name, parameter, expected default source text)]"""
+    prog = ctx.prog
+    for fn, param, want in table:
+        f = prog.find_func(fn)
+        if param not in f.params:
+            ctx.violated(f, f.node, f"{fn}: parameter `{param}`", f"parameter `{param}` no longer exists; callers rely on its documented default {want}")
+            continue
+        d = f.param_default(param)
+        got = astx.u(d) if d is not None else "<required>"
+        ctx.check(got == want, f, d if d is not None else f.node, f"{fn}({param}={want}) documented default", got,
+                  f"default of `{param}` is {got}, documented {want}: every caller that omits the argument silently changes behaviour")
+
+
+def r7_defaults(ctx):
+    _check_defaults(ctx, [("remove_cand", "condense", "True"), ("remove_cand", "leave_zero_weight_ballots", "False"),
+                          ("remove_empty_ballots", "keep_candidates", "False")])
+
+
 RULES = [
     ("C12.R1", r1_filter_polarity, 8, "a candidate/position is kept iff it is not being removed (every filter site)"),
     ("C12.R2", r2_order, 8, "rebuilt rankings derive from the source ranking through order-preserving steps; regrouping per position"),
     ("C12.R3", r3_weight_provenance, 10, "result weights are copies, weight/k! over permutations, sums, or 0 for exhausted ballots"),
     ("C12.R4", r4_dropped, 6, "ballots are dropped only by the documented filters / flags"),
+    ("C12.R7", r7_defaults, 3, "documented defaults of the editing utilities (callers rely on them)"),
     ("C12.R6", r6_group_and_merge, 6, "merge_ballots / clean_profile / remove_noncands grouping pipeline; remove_empty_ballots candidates"),
     ("C12.R5", r5_exact, 10, "no float is created by the library in the editing utilities"),
 ]
